@@ -467,6 +467,21 @@ def make_sig_table(small=False):
     S1ht0 = der_sig(r1, s1, 0)
     S1ht81 = der_sig(r1, s1, 0x81)
     S1pad = der_sig(r1, s1, 1, pad_r=1)
+    # a valid signature of the maximal size: R and S both need a leading zero octet (33 + 33 octets), 73 bytes with
+    # the hash-type byte - the upper bound of IsValidSignatureEncoding.  The nonce is chosen, not derived.
+    kk = 1
+    while True:
+        kk += 1
+        rm = (g * kk)[0] % N
+        if rm < (1 << 255):
+            continue
+        sm = g.inverse(kk) * (Z_FIXED + rm * ds[0]) % N
+        sm = max(sm, N - sm)
+        if sm >= (1 << 255):
+            break
+    S1max = der_sig(rm, sm)
+    if len(S1max) != 73 or not ecdsa_verify_ref(pubs[0], Z_FIXED, rm, N - sm):
+        raise ValueError("could not build the 73-byte signature")
     rw, sw = sign(ds[0], Z_FIXED + 1)
     Swrong = der_sig(rw, sw)
     Sgarb = b"\x30\x01\x01"
@@ -476,7 +491,7 @@ def make_sig_table(small=False):
     Slen[1] += 1
     Slen = bytes(Slen)
     keys = [K[0], K1u, K[1], K1hyb, K1hybbad, K05, Kshort, Koff, b""]
-    sigs = [S[0], S1high, S[1], S1ht4, S1ht0, S1ht81, S1pad, Swrong, Sgarb, Slen, b"", Sgarb2, Smid]
+    sigs = [S[0], S1high, S[1], S1ht4, S1ht0, S1ht81, S1pad, Swrong, Sgarb, Slen, b"", Sgarb2, Smid, S1max]
     mkeys = [K[0], K[1], K[2], K05, K1u]
     msigs = [S[0], S[1], S[2], b"", Swrong, S1high, Sgarb]
     if small == "medium":
@@ -487,7 +502,7 @@ def make_sig_table(small=False):
         msigs = [S[0], S[1], b"", Swrong, Sgarb]
     names = {}
     for blob, nme in zip(sigs, ["S1", "S1high", "S2", "S1ht4", "S1ht0", "S1ht81", "S1pad", "Swrong", "Sgarb", "Slen", "Sempty",
-                                "Sgarb2", "Smid"]):
+                                "Sgarb2", "Smid", "S1max"]):
         names[bytes(blob).hex()] = nme
     for blob, nme in zip(keys, ["K1c", "K1u", "K2c", "K1hyb", "K1hybbad", "K05", "Kshort", "Koff", "Kempty"]):
         names[bytes(blob).hex()] = nme
